@@ -77,7 +77,9 @@ void enum_cleanup()
                      comma.SetFlags(PCF_NONE);
                      comma.Str() = ",";
 
-                     if (prev->Is(CT_PP_ENDIF))                // Issue #3604
+                     if (  prev->Is(CT_PP_ENDIF)               // Issue #3604
+                        || (  prev->TestFlags(PCF_IN_PREPROC)  // any other directive in front of the closing brace
+                           && !pc->TestFlags(PCF_IN_PREPROC)))
                      {
                         prev = prev->GetPrevNcNnlNpp();
                      }
